@@ -268,6 +268,10 @@ def run(job, ctx):
                      {'key': [k.model_type, k.culture, int(k.options)]}, 'provenance == key', {'provenance': prov, 'options': getattr(v, '_rt_opts', None)})
 
 
+UNIT_PROBE = {'en-us': ('2.5 kg', '2.5'), 'es-es': ('2,5 kg', '2,5'), 'es-mx': ('2.5 kg', '2.5'), 'fr-fr': ('2,5 kg', '2,5'), 'pt-br': ('2,5 kg', '2,5'), 'de-de': ('2,5 kg', '2,5'),
+              'it-it': ('2,5 kg', '2,5'), 'nl-nl': ('2,5 kg', '2,5')}
+
+
 def variants(code):
     alt = ''.join(ch.upper() if i % 2 == 0 else ch for i, ch in enumerate(code))
     return [code, code.upper(), code.title(), alt, code[:2].upper() + code[2:], code[:3] + code[3:].upper()]
@@ -288,6 +292,7 @@ def run_casesweep(job, ctx):
                     for fam in fams:
                         rec = R[rname](None, 0, False)
                         answers = []
+                        m = None
                         for code in variants(fam):
                             try:
                                 m = rec.get_model(mt, code, fb) if generic else getattr(rec, getter)(code, fb)
@@ -298,6 +303,15 @@ def run_casesweep(job, ctx):
                                 ans = ('EXC', repr(e))
                             answers.append((code, ans))
                             ctx.event('cache_requests')
+                        if mt == 'DimensionModel' and m is not None and ans[0] == 'model' and ans[1] in UNIT_PROBE:
+                            # behaviour: the served model reads a decimal amount with ITS culture's marks, whichever sibling culture was built first
+                            pq, pv = UNIT_PROBE[ans[1]]
+                            pr = m.parse(pq)
+                            ctx.event('behaviour_probes')
+                            if not (len(pr) == 1 and pr[0].resolution and pr[0].resolution.get('value') == pv):
+                                ctx.fail('model-does-not-follow-its-culture-conventions', {'model': mt, 'recognizer': rname}, 'probe|%s|%s|%s' % (rname, mt, ans[1]),
+                                         {'recognizer': rname, 'getter': getter, 'model_type': mt, 'culture': fam, 'served': ans[1], 'probe': pq}, {'value': pv},
+                                         [[e.text, (e.resolution or {}).get('value'), (e.resolution or {}).get('unit')] for e in pr])
                         key = 'case|%s|%s|%s|%s' % (rname, 'get_model' if generic else getter, fam, fb)
                         ctx.observe(key=key, nontrivial=any(a[1][0] == 'model' for a in answers), cell='%s:%s:case' % (rname, mt),
                                     sample={'request': key, 'answers': answers[:3]})
